@@ -101,8 +101,12 @@ func RuleFAcctTypes(c *core.Ctx) {
 		// Build calls in fn
 		buildBlocks := map[*ssa.BasicBlock]bool{}
 		core.EachInstr(fn, func(ins ssa.Instruction) {
-			if call, ok := ins.(*ssa.Call); ok && call.Call.StaticCallee() == buildFn {
-				buildBlocks[call.Block()] = true
+			if call, ok := ins.(*ssa.Call); ok {
+				for _, callee := range p.Callees(call) {
+					if reachesFunc(p, callee, buildFn, 0) {
+						buildBlocks[call.Block()] = true
+					}
+				}
 			}
 		})
 		if len(buildBlocks) == 0 {
@@ -179,3 +183,23 @@ func reachesBuildUnder(start *ssa.BasicBlock, build map[*ssa.BasicBlock]bool, t 
 }
 
 var _ = types.Identical
+
+// reachesFunc: fn is target, or a module function (closure, helper) that
+// calls target within three levels.
+func reachesFunc(p *core.Prog, fn, target *ssa.Function, depth int) bool {
+	if fn == target {
+		return true
+	}
+	if fn == nil || fn.Blocks == nil || !p.InModule(fn) || depth > 3 {
+		return false
+	}
+	found := false
+	core.EachInstr(fn, func(ins ssa.Instruction) {
+		if call, ok := ins.(ssa.CallInstruction); ok && !found {
+			if callee := call.Common().StaticCallee(); callee != nil && reachesFunc(p, callee, target, depth+1) {
+				found = true
+			}
+		}
+	})
+	return found
+}
